@@ -7,6 +7,7 @@ dv_binlog — line protocol of the C40 model.
   dec <typebyte> <meta> <signed 0|1> <hex>→ ok <cell> <consumed> | err
   row <n> <type>*n <cell|null>*n          → ok <hex data> <hex bitmap> | err <class>
   unrow <n> <type>*n <hex bitmap> <hex data> → ok <cell|null>*n | err
+  jkeys <large 0|1> <hex key>*             → ok <hex key-entries section of the JSON object>
 
 type: int:<1|2|3|4|8>:<s|u> f32 f64 year date time datetime:<fsp> timestamp:<fsp> decimal:<p>:<s>
       bit:<n> enum:<n> set:<n> varchar:<maxbytes> char:<maxbytes> blob:<maxbytes> json geometry
@@ -107,6 +108,12 @@ def step (_ : Unit) : List String → Unit × String
         | .ok (d, fl) => ((), s!"ok {hex d} {hex (packBits fl)}")
         | .error e => ((), s!"err {errName e}")
       | _, _ => ((), "bad-op")
+  | "jkeys" :: lg :: ks =>
+    match ks.mapM unhex with
+    | some keys =>
+      let large := lg == "1"
+      ((), s!"ok {hex (jsonKeyEntries large (initialObjectKeysOffset keys.length large) keys)}")
+    | none => ((), "bad-op")
   | "unrow" :: n :: rest =>
     match n.toNat? with
     | none => ((), "bad-op")
